@@ -217,6 +217,7 @@ def run(ctx):
         lines.append(f"keyset.asdict {J.enc_keyarg(ks)} N")
         impls.append(lambda ks=ks: ks.as_dict()["keys"])
     concurrent_exports(ctx, keys)
+    fresh_keys_public_first(ctx)
     answers = model_eval(lines) if ctx.driver_ok else []
     for ln, f, m in zip(lines, impls, answers):
         try:
@@ -227,6 +228,45 @@ def run(ctx):
         ctx.count("as-dict-model", ln[:200], True)
         if mo != impl:
             ctx.disagreements.append({"suite": "as-dict", "request": ln[:300], "model": repr(mo)[:300], "impl": repr(impl)[:300]})
+
+
+def fresh_keys_public_first(ctx):
+    """History: keys whose JWK view has not been built yet (generated, or imported from octets / text / PEM / DER) and whose
+    FIRST use is the public export - nothing has looked at them before, not even this check (the secret values to look for
+    are taken from the generator's / importer's input, or from a second object of the same key)."""
+    from joserfc.jwk import OctKey, RSAKey, ECKey, OKPKey, JWKRegistry, KeySet
+    import os
+    made = []
+    for n in (16, 24, 32, 64):
+        raw = os.urandom(n)
+        made.append((f"oct-{n}-bytes", lambda raw=raw: OctKey.import_key(raw), raw))
+        made.append((f"oct-{n}-bytes-parameters", lambda raw=raw: OctKey.import_key(raw, {"use": "sig"}), raw))
+        made.append((f"oct-{n}-registry", lambda raw=raw: JWKRegistry.import_key(raw, "oct"), raw))
+    txt = "a-very-secret-shared-key-0123456"
+    made.append(("oct-text", lambda: OctKey.import_key(txt), txt.encode()))
+    for bits in (128, 256):
+        made.append((f"oct-generated-{bits}", lambda bits=bits: OctKey.generate_key(bits), None))
+        made.append((f"oct-generated-{bits}-registry", lambda bits=bits: JWKRegistry.generate_key("oct", bits, {"use": "enc"}), None))
+    for label, src in (("ec-pem", J.make_key("p256", private=True)), ("okp-der", J.make_key("ed25519", private=True)), ("rsa-pem", J.make_key("rsa2048", private=True))):
+        cls = type(src)
+        blob = src.as_pem(private=True) if "pem" in label else src.as_der(private=True)
+        made.append((label, lambda cls=cls, blob=blob: cls.import_key(blob), None))
+    made.append(("ec-generated", lambda: ECKey.generate_key("P-256"), None))
+    made.append(("okp-generated", lambda: OKPKey.generate_key("X25519"), None))
+    for label, mk, secret in made:
+        for how in ("key", "keyset"):
+            k = mk()
+            pub = k.as_dict(private=False) if how == "key" else None
+            if how == "keyset":
+                ks = KeySet.__new__(KeySet)
+                ks.keys = [k]                 # a set built without touching the key (KeySet() itself assigns kids, i.e. builds the view)
+                pub = ks.as_dict(private=False)["keys"][0]
+            ctx.count("fresh-public-first", (label, how), True, label.split("-")[0])
+            bad = PRIVATE_NAMES & set(pub)
+            if bad:
+                ctx.report(f"the public JWK export of a fresh key ({label}, first thing ever asked of it, via {how}) contains private member(s) {sorted(bad)}",
+                           {"key": label, "via": how, "members": sorted(pub)}, f"fresh-public:{label.split('-')[0]}:private-member")
+            scan(ctx, label, "fresh-public-first", pub, needles_of(k))       # (the secret values are read only AFTER the export was taken)
 
 
 def concurrent_exports(ctx, keys):
